@@ -39,14 +39,6 @@ package http2
 //@ -- are not verified here: all that is assumed is that entering one is the event, and (from the module-wide
 //@ -- `writers` scan) that they cannot touch the captured fingerprint data.
 //@ ghost var procLog seq[int]
-//@ func (*serverConn).processData :: sc, f -> err
-//@   trusted
-//@   assigns unrestricted, procLog
-//@   ensures procLog == old(procLog) ++ seq[int]{0}
-//@ func (*serverConn).processHeaders :: sc, f -> err
-//@   trusted
-//@   assigns unrestricted, procLog
-//@   ensures procLog == old(procLog) ++ seq[int]{1}
 //@ func (*serverConn).processPriority :: sc, f -> err
 //@   trusted
 //@   assigns unrestricted, procLog
@@ -71,9 +63,6 @@ package http2
 //@   trusted
 //@   assigns unrestricted, procLog
 //@   ensures procLog == old(procLog) ++ seq[int]{8}
-//@ func (*serverConn).sendWindowUpdate :: sc, st, n
-//@   trusted
-//@   assigns unrestricted
 
 //@ -- what is captured, as values
 //@ pure func capSettings(p seq[byte], n int) seq[metadata.Setting] = ite(n <= 0, seq[metadata.Setting]{}, capSettings(p, n-1) ++ seq[metadata.Setting]{mk(metadata.Setting, settingID(p, n-1), settingVal(p, n-1))})
@@ -83,6 +72,7 @@ package http2
 //@ func (*serverConn).processFrame :: sc, f -> err
 //@   props C03,C13,C10,C08
 //@   requires sc != nil && f != nil && frameOK(f) && sc.inflow.avail >= 0
+//@   requires [C12,C13:connection-invariant] connInv(sc) && frameWF(f)
 //@   requires hasMeta(sc.baseCtx) ==> ctxMeta(sc.baseCtx) != nil
 //@   structural [C03:captured-before-processing] stores_before_calls HTTP2FingerprintingFrames process
 //@   ensures [C13,C08:accepted-frames-reach-their-handler] old(accepted(sc, f)) ==> procLog == old(procLog) ++ ite(isptr(DataFrame, f), seq[int]{0}, ite(isptr(MetaHeadersFrame, f), seq[int]{1}, ite(isptr(PriorityFrame, f), seq[int]{2}, ite(isptr(RSTStreamFrame, f), seq[int]{3}, ite(isptr(SettingsFrame, f), seq[int]{4}, ite(isptr(PingFrame, f), seq[int]{6}, ite(isptr(GoAwayFrame, f), seq[int]{7}, ite(isptr(WindowUpdateFrame, f), seq[int]{8}, seq[int]{}))))))))
